@@ -35,7 +35,7 @@ def sqlite_profile():
     out = {}
     for rel, fn in SQLITE_METHODS:
         body = S.fn_body_deep(S.source(rel), fn)
-        lets = S.let_bindings(rel, fn)
+        lets = S.let_bindings(rel, fn, deep=True)
         a = {}
         for m in re.finditer(r'validate_string_length\(\s*&?\s*(\w+)\.(\w+)\s*,\s*(\w+)', body):
             a[SEM.get(m.group(2), m.group(2))] = f'length <= {m.group(3)}'
